@@ -717,7 +717,7 @@ int main(int argc, char** argv)
     e2::g_wanted = &wanted;
     e2::g_drop = &on_record;
     e2::g_on_point = &on_point;
-    e2::install(seed, mode == "mix" ? 200 : 0);
+    e2::install(seed, mode == "mix" || mode == "random" ? 200 : 0);
     tl_ctl = true;
     pika::start(nullptr, int(av.size()), av.data());
 
